@@ -13,8 +13,8 @@ from . import env, runner
 from .runner import signature
 
 QUICK_RUNS = {
-    "C01": 480, "C02": 640, "C03": 800, "C04": 800, "C05": 800, "C06": 640, "C07": 400, "C08": 320,
-    "C09": 400, "C10": 480, "C11": 640, "C14": 160, "C15": 200, "C16": 200, "C20": 640,
+    "C01": 3000, "C02": 4000, "C03": 4000, "C04": 4000, "C05": 4000, "C06": 4000, "C07": 3000, "C08": 2000,
+    "C09": 3000, "C10": 4000, "C11": 3000, "C14": 320, "C15": 400, "C16": 400, "C20": 4000,
 }
 CHUNK = 8
 
